@@ -134,7 +134,7 @@ def advance(phi, x, T, y1, y2, nu=1., sig1=0., sig2=0., theta1=1., theta2=1., dt
             phi = numerics.move_density_to_bdry(x,phi,P)
             phi = numerics.advance_line(x,phi,Pline)
     else:
-        Ts = np.concatenate(( np.linspace(0,np.floor(T/dt)*dt,np.floor(T/dt)+1), np.array([T]) ))
+        Ts = np.concatenate(( np.linspace(0,np.floor(T/dt)*dt,int(np.floor(T/dt))+1), np.array([T]) ))
         
         for ii in range(int(T/dt)):
             nu_current = nu(Ts[ii])
